@@ -10,6 +10,7 @@ import (
 	"github.com/hashicorp/consul/internal/verifmc/c08r"
 	"github.com/hashicorp/consul/internal/verifmc/c09"
 	"github.com/hashicorp/consul/internal/verifmc/c12"
+	"github.com/hashicorp/consul/internal/verifmc/c16"
 	"github.com/hashicorp/consul/internal/verifmc/c19"
 	"github.com/hashicorp/consul/internal/verifmc/ev"
 )
@@ -23,6 +24,7 @@ var checks = map[string]checkDef{
 	"C08": {"exploration", func(c *ev.Ctx) { c08.Run(c); c08r.Run(c) }},
 	"C09": {"exploration", c09.Run},
 	"C12": {"exploration", c12.Run},
+	"C16": {"fault_enumeration", c16.Run},
 	"C19": {"exploration", c19.Run},
 }
 
